@@ -5,7 +5,7 @@ use crate::{hash_of, Cx, In};
 use identity_core::common::Url;
 use identity_core::convert::{FromJson, ToJson};
 use identity_credential::credential::{Credential, RevocationBitmapStatus, Status};
-use identity_credential::revocation::status_list_2021::{StatusList2021, StatusList2021Credential, StatusList2021Entry, StatusPurpose};
+use identity_credential::revocation::status_list_2021::{StatusList2021, StatusList2021Credential, StatusList2021Entry};
 use identity_credential::revocation::RevocationBitmap;
 use identity_credential::validator::{JwtCredentialValidatorUtils, StatusCheck};
 use identity_did::DIDUrl;
